@@ -1,0 +1,41 @@
+// Copyright 2017 Pilosa Corp.
+//
+// Licensed under the Apache License, Version 2.0 (the "License");
+// you may not use this file except in compliance with the License.
+// You may obtain a copy of the License at
+//
+//     http://www.apache.org/licenses/LICENSE-2.0
+//
+// Unless required by applicable law or agreed to in writing, software
+// distributed under the License is distributed on an "AS IS" BASIS,
+// WITHOUT WARRANTIES OR CONDITIONS OF ANY KIND, either express or implied.
+// See the License for the specific language governing permissions and
+// limitations under the License.
+
+//go:build verif
+// +build verif
+
+package pilosa
+
+// Export shims for the verification harness (/verif, property C17). Add-only, tag-guarded.
+
+// VerifValCountReduce applies one of the ValCount reducers.
+func VerifValCountReduce(op string, a, b ValCount) ValCount {
+	switch op {
+	case "add":
+		return a.add(b)
+	case "smaller":
+		return a.smaller(b)
+	case "larger":
+		return a.larger(b)
+	}
+	panic("verif: unknown ValCount reducer " + op)
+}
+
+// VerifRowIDsMerge exposes RowIDs.merge.
+func VerifRowIDsMerge(a, b RowIDs, limit int) RowIDs { return a.merge(b, limit) }
+
+// VerifMergeGroupCounts exposes mergeGroupCounts.
+func VerifMergeGroupCounts(a, b []GroupCount, limit int) []GroupCount {
+	return mergeGroupCounts(a, b, limit)
+}
